@@ -44,6 +44,15 @@ func parseDef(def string) *query.Query {
 	return q
 }
 
+// SubQueryDefinitions gives the meaning of the tag definitions with a sub-query that scenarios use: the
+// main stream s is a member iff SOME visible stream x satisfies the function (xHas tells whether x is a
+// member of a tag according to the truth computed so far).
+var SubQueryDefinitions = map[string]func(s, x *ref.Rec, xHas func(tag string) bool) bool{
+	"@sub:tag:b sport:@sub:sport@": func(s, x *ref.Rec, xHas func(string) bool) bool {
+		return xHas("tag/b") && s.SPort == x.SPort
+	},
+}
+
 // TagTruth evaluates every tag definition on the current data of every visible stream.
 // Tags the reference evaluator cannot judge (sub-queries, unparsable) are left out, and so are
 // tags that reference them.
@@ -102,6 +111,21 @@ func TagTruth(s *Snapshot) (map[string]map[uint64]bool, map[uint64]*ref.Rec, err
 			progress = true
 			delete(remaining, name)
 			q := parseDef(t.Definition)
+			if sq, ok := SubQueryDefinitions[t.Definition]; ok && !skip && q != nil {
+				// a definition with a sub-query from the harness' menu: its meaning is written out in Go
+				m := map[uint64]bool{}
+				for id, r := range recs {
+					m[id] = false
+					for xid, x := range recs {
+						if sq(r, x, func(tag string) bool { return truth[tag][xid] }) {
+							m[id] = true
+							break
+						}
+					}
+				}
+				truth[name] = m
+				continue
+			}
 			if skip || q == nil || t.SubQueryFeatures != 0 {
 				skipped[name] = true
 				continue
@@ -183,6 +207,70 @@ func CheckC06(w *World, s *Snapshot) []V {
 		// a view refusing to answer is not a stale answer; it is reported for C10
 		out = append(out, V{"C10", "c10.view-error", "fresh view with all tags prefetched: " + err.Error()})
 		return out
+	}
+	// the same through searches that return one stream per page and prefetch the tags in a given order
+	// (what the web interface does): a tag is then evaluated for the streams of the page only, unless
+	// another tag needs it for all streams
+	if len(s.St.Tags) >= 2 && len(s.Visible) >= 2 {
+		var names []string
+		for _, t := range s.St.Tags {
+			names = append(names, t.Name)
+		}
+		rev := append([]string{}, names...)
+		sort.Sort(sort.Reverse(sort.StringSlice(rev)))
+		qAll := parseDef("sort:id")
+		for oi, order := range [][]string{names, rev} {
+			for page := uint(0); page < uint(len(s.Visible)); page++ {
+				v := w.Mgr.GetView()
+				var gotID uint64
+				var gotTags []string
+				n := 0
+				_, _, _, err := v.SearchStreams(context.Background(), qAll, func(sc manager.StreamContext) error {
+					tags, err := sc.AllTags()
+					if err != nil {
+						return err
+					}
+					gotID, gotTags = sc.Stream().ID(), tags
+					n++
+					return nil
+				}, manager.Limit(1, page), manager.PrefetchTags(order))
+				v.Release()
+				if err != nil || n != 1 {
+					continue // refusals and paging are not this property's business
+				}
+				_ = oi
+				var want []string
+				complete := true
+				for _, t := range s.St.Tags {
+					m, ok := truth[t.Name]
+					if !ok {
+						complete = false
+						break
+					}
+					if m[gotID] {
+						want = append(want, t.Name)
+					}
+				}
+				if !complete {
+					continue
+				}
+				sort.Strings(want)
+				sort.Strings(gotTags)
+				if strings.Join(want, ",") != strings.Join(gotTags, ",") {
+					window := false
+					for _, t := range s.St.Tags {
+						if conversionWindow(s, t.Definition, gotID) {
+							window = true
+						}
+					}
+					if window {
+						continue // reported by the unpaged path under its own symptom
+					}
+					out = append(out, V{"C06", "c06.search-page-shows-wrong-tags", fmt.Sprintf("a search for one stream per page (page %d, tags prefetched in the order %v) shows stream %d with tags [%s], evaluating the definitions on its current data gives [%s]", page, order, gotID, strings.Join(gotTags, ","), strings.Join(want, ","))})
+				}
+			}
+		}
+		w.Mgr.Status()
 	}
 	for id := range s.Visible {
 		var want []string
